@@ -3,14 +3,18 @@ import random, json, re, os
 import common
 from common import slit
 
-PRE_STYLE = ('From Coq Require Import ZArith List String.\n'
+PRE_STYLE = ('From Coq Require Import ZArith List String Uint63.\n'
              'Require Import WV.model.C15Style WV.model.C15StyleSpec.\n'
              'Import ListNotations.\nOpen Scope string_scope.\nOpen Scope Z_scope.\n')
 
 # ------------------------------------------------------------------------------- Coq literals
 
 def tlit(s):
-    return '[%s]' % ';'.join(str(ord(ch)) for ch in s)
+    if not s:
+        return '[]'
+    if '\x00' in s or any(0xd800 <= ord(ch) < 0xe000 for ch in s):
+        return '[%s]' % ';'.join(str(ord(ch)) for ch in s)
+    return '(u "%s")' % s.replace('"', '""')      # UTF-8 bytes in a string literal, decoded by C15Style.u
 
 
 def symlit(s):
@@ -62,16 +66,33 @@ def outlit(o):
     return 'RExc' if o[0] == 'exc' else 'RFuel'
 
 
-def querylit(q, o):
-    return '(%s, %s, (%d), %s)' % ('true' if q[0] else 'false', cnamelit(q[1]), q[2], outlit(o))
+def outline(o):
+    return 'o' + o[1] if o[0] == 'ok' else 'e' if o[0] == 'exc' else 'r'
 
 
 def caselit(user, with_spec, queries, outs):
-    return '(%s, %s, [%s])' % (styleslit(user), 'true' if with_spec else 'false',
-                                ';\n  '.join(querylit(q, o) for q, o in zip(queries, outs)))
+    """queries grouped by consecutive (marker, name); values and outcomes as string literals."""
+    groups, cur = [], None
+    for qu, o in zip(queries, outs):
+        key = (qu[0], json.dumps(qu[1]))
+        if cur is None or cur[0] != key:
+            cur = (key, qu, [], [])
+            groups.append(cur)
+        cur[2].append(str(qu[2]))
+        line = outline(o)
+        assert '\n' not in line and '\x00' not in line
+        cur[3].append(line)
+    gl = []
+    for _, qu, vs, ls in groups:
+        data = (' '.join(vs) + '\n' + '\n'.join(ls)).encode('utf-8')
+        data += b'\0' * (-len(data) % 7)
+        ints = [int.from_bytes(data[k:k + 7], 'little') for k in range(0, len(data), 7)]
+        gl.append('(mkgroup %s %s [%s])' % ('true' if qu[0] else 'false', cnamelit(qu[1]),
+                                                          '; '.join('%d%%uint63' % x for x in ints)))
+    return '(mkcase %s %s [%s])' % (styleslit(user), 'true' if with_spec else 'false', ';\n  '.join(gl))
 
 
-CASE_T = 'styles * bool * list query'
+CASE_T = 'styles * bool * list group'
 
 # ------------------------------------------------------------------------- classification of deviations
 # mechanisms of the genuine deviations between counters.py and CSS Counter Styles 3 that this check knows;
@@ -81,7 +102,7 @@ CASE_T = 'styles * bool * list query'
 SYSTEM_KEYWORDS = ('cyclic', 'numeric', 'alphabetic', 'symbolic', 'additive', 'fixed')
 
 
-def classify(user, q, out):
+def classify(user, q, out, base_names=()):
     """signature (mechanism) of a deviation from the specification observed on query q; None = not a known one.
     Odd features (system keywords as names, extends+symbols, lists mixing auto) are only generated in `odd` cases."""
     names = {k: d for k, d in user}
@@ -102,7 +123,11 @@ def classify(user, q, out):
         return 'c15:range-auto-valueerror'
     if q[2] < 0 and any(d['system'] and d['system'][1] == 'additive' and d['range'] for d in names.values()):
         return 'c15:additive-negative-fallback-abs'
-    if any(d['system'] and d['system'][0] for d in names.values()) and any(d['fallback'] for d in names.values()):
+    if any(d['system'] and d['system'][0] and d['system'][1] not in names and d['system'][1] not in base_names
+           for d in names.values()):
+        return 'c15:extends-unknown-drops-descriptors'
+    if any(d['system'] and d['system'][0] for d in names.values()) and \
+            sum(1 for d in names.values() if d['fallback']) >= 2:
         return 'c15:extends-ancestors-in-fallback-cycle-list'
     return None
 
@@ -201,7 +226,8 @@ def gen_values(rng, n):
             vals.add(rng.choice([-60, -5, -1, 0, 1, 2, 3, 7, 12, 40, 100, 1000, 4999]) + rng.choice([-1, 0, 1]))
         else:
             vals.add(rng.randint(-50, 5000))
-    return sorted(vals)
+    vals = sorted(vals)
+    return sorted(rng.sample(vals, n)) if len(vals) > n else vals
 
 
 def gen_css_case(rng, odd):
@@ -274,13 +300,15 @@ def gen_raw_case(rng):
     names = rng.sample(['a', 'b', 'c', 'd', 'numeric', 'symbolic'], rng.choice([1, 2, 3, 4]))
     raw = [[n, gen_raw_style(rng, names)] for n in names]
     r = rng.random()
-    if r < 0.75:
+    nv = 20
+    if r < 0.85:
         raw.append(['decimal', DECIMAL])
-    elif r < 0.9:
-        raw.append(['decimal', gen_raw_style(rng, names)])
+    elif r < 0.93:
+        raw.append(['decimal', gen_raw_style(rng, names)])     # may not terminate: few queries
+        nv = 4
     queries = []
     for n in names + ['decimal', 'nosuch']:
-        for v in gen_values(rng, 20):
+        for v in gen_values(rng, nv):
             queries.append([rng.random() < 0.15, n, v])
     return {'css': None, 'raw': raw, 'use_ua': False, 'queries': queries, 'odd': True}
 
@@ -289,7 +317,10 @@ def gen_raw_case(rng):
 
 def run_style_cases(run, stream, tag, cases, base_entries, with_spec, per_file):
     """cases: impl cases (dicts).  Returns number of queries evaluated."""
+    import time
+    t0 = time.time()
     outs = common.run_impl('impl_c15', 'render_queries', cases, limit=120, chunksize=2)
+    t1 = time.time()
     coq, kept = [], []
     for c, (st, o) in zip(cases, outs):
         if st != 'ok':
@@ -305,6 +336,7 @@ def run_style_cases(run, stream, tag, cases, base_entries, with_spec, per_file):
     except RuntimeError as exc:
         run.oblige('corr:' + stream, False, str(exc))
         return 0
+    run.stream_info(stream, impl_s=round(t1 - t0, 1), coq_s=round(time.time() - t1, 1))
     mism, nq = [], 0
     sigs = {}
     for c, r in zip(kept, res):
@@ -320,7 +352,7 @@ def run_style_cases(run, stream, tag, cases, base_entries, with_spec, per_file):
         if mask & 1:
             mism.append(data)
         if mask & 2:
-            sig = classify(c['user'], query, out)
+            sig = classify(c['user'], query, out, [k for k, _ in base_entries])
             if sig is None or sig not in sigs:
                 sigs[sig] = data
     run.oblige('corr:%s(model = counters.py, strings compared)' % stream, not mism,
@@ -331,6 +363,7 @@ def run_style_cases(run, stream, tag, cases, base_entries, with_spec, per_file):
             'c15:extends-with-symbols-indexerror': 'IndexError in render_value for an extending style with an empty symbols descriptor',
             'c15:extends-with-symbols-accepted': '@counter-style with `system: extends` and symbols/additive-symbols is not rejected',
             'c15:additive-negative-fallback-abs': 'negative value not representable by an additive style: the fallback style renders the absolute value',
+            'c15:extends-unknown-drops-descriptors': 'a style extending an undefined style loses its own descriptors (plain decimal is printed)',
             'c15:style-named-like-a-system': 'a counter style whose name is a system keyword confuses the fallback cycle detection',
             'c15:extends-ancestors-in-fallback-cycle-list': 'the styles met while resolving `extends` count as already tried when following fallbacks (decimal is used instead of the fallback style)',
         }.get(sig, 'render_value output differs from CSS Counter Styles 3')
@@ -356,6 +389,291 @@ def ua_cases(rng, ua, thorough):
     return cases
 
 
+# ------------------------------------------------------------------------------- counter scoping (renders)
+
+PRE_SCOPE = ('From Coq Require Import ZArith List String.\nRequire Import WV.model.C15Scope.\n'
+             'Import ListNotations.\nOpen Scope string_scope.\nOpen Scope Z_scope.\n')
+SCOPE_T = 'list name * node * printed'
+OBS_NAMES = ['a', 'b', 'c', 'list-item']
+CONTENT = ' "|" '.join('counters(%s, ".")' % n for n in OBS_NAMES)
+
+
+def gen_upd(rng, kind, list_context):
+    names = ['a', 'a', 'b', 'c'] + (['list-item'] * 2 if list_context else ['list-item'])
+    k = rng.choice([1, 1, 1, 2, 2, 3])
+    out = []
+    for _ in range(k):
+        n = rng.choice(names)
+        v = rng.choice([None, None, 0, 1, 1, 2, 3, 5, -1, -2, 10])
+        if kind == 'set' and v is None:
+            v = 0
+        out.append([n, v])
+    return out
+
+
+def gen_props(rng, list_context, pseudo=False):
+    p = {'reset': None, 'set': None, 'inc': None}
+    if rng.random() < (0.2 if pseudo else 0.3):
+        p['reset'] = gen_upd(rng, 'reset', list_context)
+    if rng.random() < 0.12:
+        p['set'] = gen_upd(rng, 'set', list_context)
+    r = rng.random()
+    if r < (0.5 if pseudo else 0.3):
+        p['inc'] = gen_upd(rng, 'inc', list_context)
+    elif r < 0.36:
+        p['inc'] = []                  # counter-increment: none
+    return p
+
+
+def gen_scope_node(rng, depth, counter, in_list):
+    counter[0] += 1
+    eid = 'e%d' % counter[0]
+    # html5lib closes an open <li> at the next <li> (even through div) and <p> at block tags: li only directly in
+    # ol/ul, no p, so that the parsed tree is the generated tree
+    r = rng.random()
+    if in_list and r < 0.75:
+        tag = 'li'
+    elif r < 0.25:
+        tag = rng.choice(['ol', 'ol', 'ul'])
+    else:
+        tag = rng.choice(['div', 'div', 'span', 'section'])
+    display = None
+    r = rng.random()
+    if r < 0.06:
+        display = 'none'
+    elif r < 0.14:
+        display = 'list-item'
+    elif r < 0.2:
+        display = rng.choice(['block', 'inline', 'inline-block'])
+    props = gen_props(rng, in_list or tag in ('ol', 'ul', 'li'))
+    before = gen_props(rng, in_list, True) if rng.random() < 0.6 else None
+    after = gen_props(rng, in_list, True) if rng.random() < 0.35 else None
+    marker = rng.choice(['content', 'content', 'default'])
+    kids = []
+    if depth < 4:
+        nk = rng.choice([0, 1, 2, 2, 3, 4]) if tag not in ('ol', 'ul') else rng.choice([1, 2, 3, 4, 5])
+        for _ in range(nk):
+            kids.append(gen_scope_node(rng, depth + 1, counter, tag in ('ol', 'ul')))
+    return {'id': eid, 'tag': tag, 'display': display, 'props': props, 'before': before, 'after': after,
+            'marker': marker, 'kids': kids}
+
+
+def upd_css(l):
+    return 'none' if not l else ' '.join(n if v is None else '%s %d' % (n, v) for n, v in l)
+
+
+def props_css(p):
+    out = []
+    if p['reset'] is not None:
+        out.append('counter-reset: ' + upd_css(p['reset']))
+    if p['set'] is not None:
+        out.append('counter-set: ' + upd_css(p['set']))
+    if p['inc'] is not None:
+        out.append('counter-increment: ' + upd_css(p['inc']))
+    return out
+
+
+def scope_html(root):
+    rules, body = [], []
+    def walk(n):
+        decl = props_css(n['props'])
+        if n['display']:
+            decl.append('display: ' + n['display'])
+        if decl:
+            rules.append('#%s { %s }' % (n['id'], '; '.join(decl)))
+        for kind in ('before', 'after'):
+            if n[kind] is not None:
+                rules.append('#%s::%s { content: %s; %s }' % (n['id'], kind, CONTENT, '; '.join(props_css(n[kind]))))
+        if n['marker'] == 'content':
+            rules.append('#%s::marker { content: %s }' % (n['id'], CONTENT))
+        body.append('<%s id="%s">' % (n['tag'], n['id']))
+        if not n['kids']:
+            body.append('a')
+        for k in n['kids']:
+            walk(k)
+        body.append('</%s>' % n['tag'])
+    walk(root)
+    return ('<style>@page{size:30000px 100000px;margin:0} body{margin:0;font-family:weasyprint;font-size:10px;white-space:nowrap;'
+            'line-height:10px} ol,ul,li,div,section{margin:0;padding:0} li, div, section, span, ol, ul {list-style-position:inside;'
+            'list-style-type:decimal}\n%s</style>%s' % ('\n'.join(rules), ''.join(body)))
+
+
+def eff_props(n):
+    """the counter properties the cascade gives the element (tests UA sheet: ol, ul {counter-reset: list-item};
+    li {display: list-item}) as the model's props."""
+    p = n['props']
+    reset = p['reset']
+    if reset is None and n['tag'] in ('ol', 'ul'):
+        reset = [['list-item', None]]
+    display = n['display'] or {'li': 'list-item', 'span': 'inline'}.get(n['tag'], 'block')
+    def norm(l, default):
+        return [[a, default if v is None else v] for a, v in (l or [])]
+    return {'reset': norm(reset, 0), 'set': norm(p['set'], 0), 'inc': None if p['inc'] is None else norm(p['inc'], 1),
+            'list_item': display == 'list-item', 'displayed': display != 'none'}
+
+
+def updlit(l):
+    return '[%s]' % '; '.join('(%s, (%d))' % (slit(a), v) for a, v in l)
+
+
+def propslit(e):
+    return '(mkProps %s %s %s %s)' % (updlit(e['reset']), updlit(e['set']),
+                                     'None' if e['inc'] is None else '(Some %s)' % updlit(e['inc']),
+                                     'true' if e.get('list_item') else 'false')
+
+
+def pseudo_props(p):
+    def norm(l, default):
+        return [[a, default if v is None else v] for a, v in (l or [])]
+    return {'reset': norm(p['reset'], 0), 'set': norm(p['set'], 0),
+            'inc': None if p['inc'] is None else norm(p['inc'], 1), 'list_item': False}
+
+
+def nodelit(n):
+    e = eff_props(n)
+    return '(Elem %s %s %s [%s] %s)' % (
+        'true' if e['displayed'] else 'false', propslit(e),
+        'None' if n['before'] is None else '(Some %s)' % propslit(pseudo_props(n['before'])),
+        '; '.join(nodelit(k) for k in n['kids']),
+        'None' if n['after'] is None else '(Some %s)' % propslit(pseudo_props(n['after'])))
+
+
+def scope_points(n, out):
+    """observation points in the model's order: (id, kind, how)"""
+    e = eff_props(n)
+    if not e['displayed']:
+        return
+    out.append((n['id'], 'marker', ('full' if n['marker'] == 'content' else 'top') if e['list_item'] else None))
+    if n['before'] is not None:
+        out.append((n['id'], 'before', 'full'))
+    for k in n['kids']:
+        scope_points(k, out)
+    if n['after'] is not None:
+        out.append((n['id'], 'after', 'full'))
+
+
+def parse_full(text):
+    try:
+        parts = text.split('|')
+        if len(parts) != len(OBS_NAMES):
+            return None
+        return [[int(x) for x in part.split('.')] for part in parts]
+    except ValueError:
+        return None
+
+
+def scope_printed(root, texts):
+    """texts: [[page, id, kind, text]] from the render -> (Coq term of type printed, problems)"""
+    got = {}
+    problems = []
+    for _, eid, kind, text in texts:
+        if (eid, kind) in got:
+            problems.append('box generated twice: %s::%s' % (eid, kind))
+        got[(eid, kind)] = text
+    pts = []
+    scope_points(root, pts)
+    lits = []
+    for eid, kind, how in pts:
+        if how is None:
+            if (eid, kind) in got:
+                problems.append('unexpected box %s::%s' % (eid, kind))
+            lits.append('PNone')
+            continue
+        text = got.pop((eid, kind), None)
+        if text is None:
+            problems.append('no box for %s::%s' % (eid, kind))
+            lits.append('(PTop (-999999))')
+        elif how == 'full':
+            v = parse_full(text)
+            if v is None:
+                problems.append('unparsable %s::%s %r' % (eid, kind, text))
+                lits.append('(PTop (-999999))')
+            else:
+                lits.append('(PFull [%s])' % '; '.join('[%s]' % '; '.join('(%d)' % x for x in st) for st in v))
+        else:
+            m = re.fullmatch(r'(-?\d+)\. ', text)
+            if not m:
+                problems.append('unparsable marker %s %r' % (eid, text))
+                lits.append('(PTop (-999999))')
+            else:
+                lits.append('(PTop (%s))' % m.group(1))
+    for (eid, kind) in got:
+        problems.append('unexpected box %s::%s' % (eid, kind))
+    return '[%s]' % '; '.join(lits), problems
+
+
+def scope_features(n, acc):
+    e = eff_props(n)
+    if e['list_item'] and e['inc'] is not None and not any(a == 'list-item' for a, _ in e['inc']):
+        acc.add('li-explicit-increment')
+    for pr in [e] + [pseudo_props(n[k]) for k in ('before', 'after') if n[k] is not None]:
+        incs = pr['inc'] if pr['inc'] is not None else ([['list-item', 1]] if pr.get('list_item') else [])
+        if any(a == b for a, _ in pr['set'] for b, _ in incs) or \
+                (pr.get('list_item') and any(a == 'list-item' for a, _ in pr['set'])
+                 and not any(b == 'list-item' for b, _ in (pr['inc'] or []))):
+            acc.add('set-and-increment-same-counter')
+    for k in n['kids']:
+        scope_features(k, acc)
+
+
+def scope_stream(run, rng, thorough):
+    import time
+    n = 1500 if thorough else 220
+    docs = [gen_scope_node(rng, 0, [0], False) for _ in range(n)]
+    cases = [{'html': scope_html(d)} for d in docs]
+    t0 = time.time()
+    outs = common.run_impl('impl_c15', 'render_texts', cases, limit=60)
+    t1 = time.time()
+    coq, kept = [], []
+    nodes = 0
+    for d, c, (st, o) in zip(docs, cases, outs):
+        if st != 'ok':
+            run.fail('render of a counter document %s' % ('timed out' if st == 'timeout' else 'raised %s at %s' % (o['type'], o['site'])),
+                     {'stream': 'scope-renders', 'html': c['html'], 'outcome': o},
+                     signature='timeout' if st == 'timeout' else 'crash:%s' % (o['site'],))
+            continue
+        lit, problems = scope_printed(d, o)
+        if problems:
+            run.fail('counter document: %s' % problems[0], {'stream': 'scope-renders', 'html': c['html'], 'doc': d,
+                                                            'problems': problems[:5]}, signature='c15:scope-boxes')
+            continue
+        coq.append('([%s], %s, %s)' % ('; '.join(slit(x) for x in OBS_NAMES), nodelit(d), lit))
+        kept.append((d, c))
+        nodes += c['html'].count(' id="')
+    try:
+        masks = common.eval_cases('c15scope', PRE_SCOPE, SCOPE_T, coq, 'scope_judge', per_file=len(coq) // 16 + 1)
+    except RuntimeError as exc:
+        run.oblige('corr:scope-renders', False, str(exc))
+        return
+    mism = [c['html'] for (d, c), m in zip(kept, masks) if m & 1]
+    run.oblige('corr:scope-renders(model of update_counters/element_to_box = full renders)', not mism,
+               'first disagreements: %s' % mism[:2])
+    seen = {}
+    for (d, c), m in zip(kept, masks):
+        if m & 2:
+            feats = set()
+            scope_features(d, feats)
+            if 'set-and-increment-same-counter' in feats:
+                sig = 'c15:counter-set-before-increment'
+            elif 'li-explicit-increment' in feats:
+                sig = 'c15:explicit-increment-suppresses-list-item'
+            else:
+                sig = None
+            if sig not in seen:
+                seen[sig] = (d, c)
+    what = {'c15:counter-set-before-increment': 'counter-set is applied before counter-increment (CSS Lists 3: increment, then set)',
+            'c15:explicit-increment-suppresses-list-item': 'an explicit counter-increment on a list item suppresses the implicit list-item increment',
+            None: 'counters printed differ from the CSS scoping rules'}
+    for sig, (d, c) in seen.items():
+        run.fail(what[sig], {'stream': 'scope-renders', 'html': c['html'], 'doc': d}, signature=sig)
+    run.count('scope-renders', len(kept), [c['html'] for _, c in kept], samples=[kept[0][1]['html'][:700]] if kept else [])
+    run.stream_info('scope-renders', elements=nodes, impl_s=round(t1 - t0, 1), coq_s=round(time.time() - t1, 1),
+                    rule='random trees (depth <= 5) of div/span/section/ol/ul/li with display none/inline/block/list-item, '
+                         'counter-reset/-set/-increment (incl. none, negative, list-item) on elements and on ::before/::after, '
+                         'printed through content: counters(a,".")|counters(b,".")|counters(c,".")|counters(list-item,".") '
+                         'on ::before/::after/::marker, default decimal markers on the other list items')
+
+
 def check(run):
     rng = random.Random(run.seed * 7919 + 15)
     thorough = run.tier == 'thorough'
@@ -368,7 +686,7 @@ def check(run):
         run.oblige('corr:ua-dump', False, str(ua))
         return
     cases = ua_cases(rng, ua, thorough)
-    n = run_style_cases(run, 'ua-styles', 'c15ua', cases, ua, True, per_file=max(4, len(cases) // 64 + 1))
+    n = run_style_cases(run, 'ua-styles', 'c15ua', cases, ua, True, per_file=len(cases) // 16 + 1)
     run.count('ua-styles', n, [(c['queries'][0][1], c['queries'][0][2]) for c in cases],
               samples=[cases[0]['queries'][:3]])
     run.stream_info('ua-styles', styles=len(ua),
@@ -379,15 +697,16 @@ def check(run):
     ncss = 1200 if thorough else 150
     cases = [gen_css_case(rng, odd=(i % 3 == 2)) for i in range(ncss)]
     cases += [gen_anon_case(rng) for _ in range(ncss // 10)]
-    n = run_style_cases(run, 'random-counter-style', 'c15cs', cases, ua, True, per_file=max(2, len(cases) // 64 + 1))
+    n = run_style_cases(run, 'random-counter-style', 'c15cs', cases, ua, True, per_file=len(cases) // 16 + 1)
     run.count('random-counter-style', n, [c['css'] for c in cases], samples=[cases[0]['css'], cases[2]['css']])
     run.stream_info('random-counter-style',
                     rule='1-5 @counter-style rules per case (all systems, extends chains and cycles, range lists, '
                          'negative, pad, prefix/suffix, fallback chains and cycles; every third case also odd names and '
                          'descriptor combinations), parsed by weasyprint.CSS into the CounterStyle dictionary; '
                          '~30 values per style incl. range bounds +-1; symbols() / string styles')
+    scope_stream(run, rng, thorough)
     cases = [gen_raw_case(rng) for _ in range(800 if thorough else 100)]
-    n = run_style_cases(run, 'raw-dictionaries', 'c15raw', cases, [], False, per_file=max(2, len(cases) // 64 + 1))
+    n = run_style_cases(run, 'raw-dictionaries', 'c15raw', cases, [], False, per_file=len(cases) // 16 + 1)
     run.count('raw-dictionaries', n, [json.dumps(c['raw']) for c in cases], samples=[cases[0]['raw'][:1]])
     run.stream_info('raw-dictionaries', rule='CounterStyle filled directly with arbitrary entries (missing descriptors, '
                     'bogus systems, odd decimal): exceptions and non-termination must agree with the model too')
